@@ -49,7 +49,16 @@ pub enum Fault {
 pub enum Body {
     /// free XRD from the faucet into the actor's account
     Fund,
-    NewFungible { divisibility: u8, track: bool, supply: String, recallable: bool, freezable: bool },
+    NewFungible {
+        divisibility: u8,
+        track: bool,
+        supply: String,
+        recallable: bool,
+        freezable: bool,
+        /// owner role Updatable (can later be changed / locked) instead of Fixed
+        #[serde(default)]
+        updatable_owner: bool,
+    },
     NewNonFungible {
         track: bool,
         initial: u8,
@@ -78,8 +87,17 @@ pub enum Body {
     Stake { val: u8, amount: String },
     Unstake { val: u8, amount: String },
     Claim { val: u8 },
+    /// Two proofs over overlapping ids of the actor's non-fungible vault (the first `a` ids and
+    /// the last `b` ids it holds), popped and dropped in the given order, optionally with a
+    /// withdrawal of one proven id attempted in between (which must fail the transaction).
+    NfProofs { res: u8, a: u8, b: u8, drop_first_first: bool, withdraw_between: bool },
+    /// Two overlapping fungible proofs on the actor's vault, then a withdrawal of `amount`.
+    FProofs { res: u8, p1: String, p2: String, amount: String },
     SetMetadata { res: u8, key: u8, value: u8 },
     LockMetadata { res: u8, key: u8 },
+    /// role-assignment module: set the owner rule to "require signature of party `to`"
+    SetOwnerRole { res: u8, to: u8 },
+    LockOwnerRole { res: u8 },
     /// consensus driver: next_round(current + 1 + skipped) at clock + dt_ms
     Round { dt_ms: i64, skipped: u8 },
     /// F8
@@ -111,8 +129,12 @@ impl Body {
             Body::Stake { .. } => "Stake",
             Body::Unstake { .. } => "Unstake",
             Body::Claim { .. } => "Claim",
+            Body::NfProofs { .. } => "NfProofs",
+            Body::FProofs { .. } => "FProofs",
             Body::SetMetadata { .. } => "SetMetadata",
             Body::LockMetadata { .. } => "LockMetadata",
+            Body::SetOwnerRole { .. } => "SetOwnerRole",
+            Body::LockOwnerRole { .. } => "LockOwnerRole",
             Body::Round { .. } => "Round",
             Body::Restart => "Restart",
         }
@@ -241,6 +263,24 @@ pub fn account_vault(db: &InMemorySubstateDatabase, account: ComponentAddress, r
     })
 }
 
+/// The non-fungible ids an account holds of a resource (read from the store), sorted.
+pub fn account_nf_ids(node: &Node, account: ComponentAddress, resource: ResourceAddress) -> Vec<NonFungibleLocalId> {
+    use radix_substate_store_interface::db_key_mapper::*;
+    use radix_substate_store_interface::interface::*;
+    let Some(v) = account_vault(&node.db, account, resource) else { return vec![] };
+    let part = MAIN_BASE_PARTITION.at_offset(PartitionOffset(1)).unwrap();
+    let mut ids: Vec<NonFungibleLocalId> = node
+        .db
+        .list_raw_values(&v, part, None::<SubstateKey>)
+        .filter_map(|(k, _)| match SpreadPrefixKeyMapper::from_db_sort_key::<MapKey>(&k) {
+            SubstateKey::Map(kb) => scrypto_decode::<NonFungibleLocalId>(&kb).ok(),
+            _ => None,
+        })
+        .collect();
+    ids.sort();
+    ids
+}
+
 fn owner_rule(p: &Party) -> AccessRule {
     rule!(require(p.proof.clone()))
 }
@@ -283,7 +323,7 @@ pub fn build(step: &LStep, view: &View, node: &Node) -> Built {
     let party = |i: &u8| view.parties.get(*i as usize);
     let m = match &step.body {
         Body::Fund => b.get_free_xrd_from_faucet().try_deposit_entire_worktop_or_abort(acct, None),
-        Body::NewFungible { divisibility, track, supply, recallable, freezable } => {
+        Body::NewFungible { divisibility, track, supply, recallable, freezable, updatable_owner } => {
             let Some(supply) = dec(supply) else { return Built::Skip };
             let r = owner_rule(actor);
             let roles = FungibleResourceRoles {
@@ -294,7 +334,8 @@ pub fn build(step: &LStep, view: &View, node: &Node) -> Built {
                 withdraw_roles: None,
                 deposit_roles: None,
             };
-            b.create_fungible_resource(OwnerRole::Fixed(r), *track, *divisibility, roles, metadata!(), Some(supply))
+            let owner = if *updatable_owner { OwnerRole::Updatable(r) } else { OwnerRole::Fixed(r) };
+            b.create_fungible_resource(owner, *track, *divisibility, roles, metadata!(), Some(supply))
                 .try_deposit_entire_worktop_or_abort(acct, None)
         }
         Body::NewNonFungible { track, initial, ruid } => {
@@ -472,6 +513,32 @@ pub fn build(step: &LStep, view: &View, node: &Node) -> Built {
                 .with_name_lookup(|b, l| b.claim_xrd(v.addr, l.bucket("c")))
                 .try_deposit_entire_worktop_or_abort(acct, None)
         }
+        Body::NfProofs { res, a, b: nb, drop_first_first, withdraw_between } => {
+            let Some(r) = nres(res) else { return Built::Skip };
+            let ids = account_nf_ids(node, acct, r.addr);
+            if ids.is_empty() {
+                return Built::Skip;
+            }
+            let first: Vec<NonFungibleLocalId> = ids.iter().take((*a as usize).max(1)).cloned().collect();
+            let last: Vec<NonFungibleLocalId> = ids.iter().rev().take((*nb as usize).max(1)).cloned().collect();
+            let mut bb = b
+                .create_proof_from_account_of_non_fungibles(acct, r.addr, first.clone())
+                .create_proof_from_account_of_non_fungibles(acct, r.addr, last)
+                .pop_from_auth_zone("p2")
+                .pop_from_auth_zone("p1");
+            if *withdraw_between {
+                bb = bb.withdraw_non_fungibles_from_account(acct, r.addr, [first[0].clone()]);
+            }
+            bb = if *drop_first_first { bb.drop_proof("p1").drop_proof("p2") } else { bb.drop_proof("p2").drop_proof("p1") };
+            bb.try_deposit_entire_worktop_or_abort(acct, None)
+        }
+        Body::FProofs { res, p1, p2, amount } => {
+            let (Some(r), Some(x1), Some(x2), Some(a)) = (fres(res), dec(p1), dec(p2), dec(amount)) else { return Built::Skip };
+            b.create_proof_from_account_of_amount(acct, r.addr, x1)
+                .create_proof_from_account_of_amount(acct, r.addr, x2)
+                .withdraw_from_account(acct, r.addr, a)
+                .try_deposit_entire_worktop_or_abort(acct, None)
+        }
         Body::SetMetadata { res, key, value } => {
             let Some(r) = fres(res) else { return Built::Skip };
             if r.owner.is_none() {
@@ -485,6 +552,20 @@ pub fn build(step: &LStep, view: &View, node: &Node) -> Built {
                 return Built::Skip;
             }
             b.lock_metadata(r.addr, format!("k{}", key))
+        }
+        Body::SetOwnerRole { res, to } => {
+            let (Some(r), Some(to)) = (fres(res), party(to)) else { return Built::Skip };
+            if r.owner.is_none() {
+                return Built::Skip;
+            }
+            b.set_owner_role(r.addr, rule!(require(to.proof.clone())))
+        }
+        Body::LockOwnerRole { res } => {
+            let Some(r) = fres(res) else { return Built::Skip };
+            if r.owner.is_none() {
+                return Built::Skip;
+            }
+            b.lock_owner_role(r.addr)
         }
         Body::Round { .. } | Body::Restart => unreachable!(),
     };
@@ -741,7 +822,14 @@ pub fn gen_step(rng: &mut Rng, view: &View, node: &Node, w: &Weights, fault_perm
                         }
                     }
                 }
-                Body::TransferNF { res: r, to: other, count: rng.range(0, 2) as u8 }
+                match rng.below(4) {
+                    0..=1 => Body::TransferNF { res: r, to: other, count: rng.range(0, 2) as u8 },
+                    2 => Body::NfProofs { res: r, a: rng.range(1, 3) as u8, b: rng.range(1, 3) as u8, drop_first_first: rng.chance(1, 2), withdraw_between: rng.chance(1, 4) },
+                    _ => {
+                        let bal = bal_of(actor, fr);
+                        Body::FProofs { res: fr, p1: amount_of(rng, bal, div), p2: amount_of(rng, bal, div), amount: amount_of(rng, bal, div) }
+                    }
+                }
             }
         },
         1 => {
@@ -762,6 +850,7 @@ pub fn gen_step(rng: &mut Rng, view: &View, node: &Node, w: &Weights, fault_perm
                     supply: amount(rng, 0),
                     recallable: rng.chance(1, 2),
                     freezable: w.allow_freezable && rng.chance(1, 2),
+                    updatable_owner: rng.chance(1, 2),
                 },
                 2 => Body::NewNonFungible { track: rng.chance(2, 3), initial: rng.range(0, 4) as u8, ruid: rng.chance(1, 3) },
                 3..=4 => Body::MintF { res: r, amount: amount(rng, rdiv), to: other },
@@ -872,10 +961,11 @@ pub fn gen_step(rng: &mut Rng, view: &View, node: &Node, w: &Weights, fault_perm
                     actor = view.fres[r as usize].owner.unwrap();
                 }
             }
-            if rng.chance(3, 4) {
-                Body::SetMetadata { res: r, key: rng.below(3) as u8, value: rng.below(5) as u8 }
-            } else {
-                Body::LockMetadata { res: r, key: rng.below(3) as u8 }
+            match rng.below(8) {
+                0..=3 => Body::SetMetadata { res: r, key: rng.below(3) as u8, value: rng.below(5) as u8 },
+                4..=5 => Body::LockMetadata { res: r, key: rng.below(3) as u8 },
+                6 => Body::SetOwnerRole { res: r, to: rng.below(np) as u8 },
+                _ => Body::LockOwnerRole { res: r },
             }
         }
         _ => Body::Restart,
